@@ -51,7 +51,7 @@ void bin(char const* on, std::vector<L> const& lv, std::vector<R> const& rv)
     for (L l : lv)
         for (R r : rv) {
             if (is_div && r == 0) continue;
-            if (is_shl && (r < 0 || I(r) > 140)) continue;
+            if (is_shl && (r < 0 || I(r) > 300)) continue;
             printf(VH_TABLE " bin " VH_PATH " %s %s %s %s ", tag.c_str(), on, tn<L>().c_str(), tn<R>().c_str());
             prv(l);
             putchar(' ');
@@ -149,6 +149,28 @@ void cvtf(Rng& rng)
         nb(F(F(L::max()) + o));
         nb(F(F(L::lowest()) + o));
     }
+    // the repaired boundary, densely: the limits, the powers of two they round to, and +-1, +-2 ulp
+    // around each (whatever the format holds of them), both signs; zero and the smallest magnitudes
+    auto nb2 = [&](F x) {
+        F inf = std::numeric_limits<F>::infinity();
+        nb(x);
+        vhf::push_f(fv, std::nextafter(std::nextafter(x, inf), inf));
+        vhf::push_f(fv, std::nextafter(std::nextafter(x, -inf), -inf));
+    };
+    for (int k : {L::digits - 1, L::digits, L::digits + 1})
+        for (F sg : {F(1), F(-1)}) {
+            F p = sg * std::ldexp(F(1), k);
+            nb2(p);
+            for (F o : {F(0.25), F(0.5), F(0.75), F(1), F(1.5), F(2), F(3)}) {
+                nb2(F(p - sg * o));
+                nb2(F(p + sg * o));
+            }
+        }
+    nb2(F(L::max()));
+    nb2(F(L::lowest()));
+    for (F z : {F(0), -F(0), std::numeric_limits<F>::denorm_min(), -std::numeric_limits<F>::denorm_min(), std::numeric_limits<F>::min(),
+                -std::numeric_limits<F>::min(), F(-0.25), F(-0.5), F(-0.75), F(-1), F(-1.5)})
+        nb2(z);
     for (D d : vals<D>(rng, 6 * scale_from_env(), sizeof(D) > 4 ? 13 : 5)) {
         nb(F(d));
         nb(F(F(d) + F(0.5)));
@@ -174,4 +196,28 @@ void pair_arith(Rng& rng)
     bin<Tag, _impl::add_op, L, R>("add", lv, rv);
     bin<Tag, _impl::subtract_op, L, R>("sub", lv, rv);
     bin<Tag, _impl::multiply_op, L, R>("mul", lv, rv);
+}
+
+
+// shift counts around the width of the promoted left operand, densely (the repaired boundaries:
+// 0 << n and x >> n with n >= width, -1 << digits)
+template<class Tag, class L, class R>
+void shift_dense(Rng& rng)
+{
+    using P = decltype(std::declval<L>() << 1);
+    using NL = std::numeric_limits<L>;
+    constexpr int W = int(sizeof(P) * 8), DG = std::numeric_limits<P>::digits;
+    std::vector<L> lv;
+    for (I v : {I(0), I(1), I(-1), I(2), I(-2), I(3), I(-3), I(NL::max()), I(NL::lowest()), I(NL::max()) - 1, I(NL::lowest()) + 1,
+                I(NL::max() / 2), I(NL::max() / 2) + 1, I(NL::lowest() / 2), I(NL::lowest() / 2) - 1})
+        if (v >= I(NL::lowest()) && v <= I(NL::max())) push_unique(lv, L(v));
+    for (L v : vals<L>(rng, 3 * scale_from_env(), 64)) push_unique(lv, v);
+    std::vector<R> rv;
+    for (int c : {0, 1, 2, 6, 7, 8, 9, 15, 16, 17, DG - 2, DG - 1, DG, DG + 1, W - 1, W, W + 1, W + 2, 2 * W - 1, 2 * W, 2 * W + 1, 127, 128, 129, 255, 256,
+                  int(sizeof(L) * 8) - 1, int(sizeof(L) * 8), int(sizeof(L) * 8) + 1})
+        if (c >= 0 && I(c) <= I(std::numeric_limits<R>::max())) push_unique(rv, R(c));
+    bin<Tag, _impl::shift_left_op, L, R>("shl", lv, rv);
+#if defined(VH_WITH_SHR)
+    bin<Tag, _impl::shift_right_op, L, R>("shr", lv, rv);
+#endif
 }
